@@ -1001,6 +1001,27 @@ func (env *SpecEnv) evalCall(x *SExpr) (Val, error) {
 				ref = a.sBase()
 			}
 			return Val{T: tBool, S: app(">", ref, env.old.alloc)}, nil
+		case "implements":
+			// implements(x, I): the dynamic type of the interface value x implements interface I (the
+			// predicate a comma-ok assertion x.(I) tests)
+			a, err := env.eval(args[0])
+			if err != nil {
+				return Val{}, err
+			}
+			T, err := env.resolveType(args[1].String())
+			if err != nil {
+				return Val{}, err
+			}
+			it, isIface := T.Underlying().(*types.Interface)
+			if !isIface {
+				return Val{}, fmt.Errorf("implements(x, T): T is not an interface type")
+			}
+			if a.Dyn != nil {
+				return Val{T: tBool, S: fmt.Sprint(types.Implements(a.Dyn, it))}, nil
+			}
+			name := sym("implements_" + typeKey(T))
+			e.once("impl:"+name, func() { e.emit("(declare-fun " + name + " (Int) Bool)"); e.assume(mkNot(app(name, "0"))) })
+			return Val{T: tBool, S: app(name, app("itype", a.S))}, nil
 		case "typeis":
 			a, err := env.eval(args[0])
 			if err != nil {
